@@ -134,13 +134,18 @@ func HTMLAssets(item *models.Item) (assets []*models.URL, err error) {
 		style, exists := i.Attr("style")
 		if exists {
 			matches := backgroundImageRegex.FindAllStringSubmatch(style, -1)
+			matchesIndex := backgroundImageRegex.FindAllStringSubmatchIndex(style, -1)
 
 			for match := range matches {
 				if len(matches[match]) > 0 {
 					matchFound := matches[match][1]
 
+					// A '%' inside url(...) is a percent-escape of the URL, not a CSS percentage
+					start := matchesIndex[match][0]
+					isURLFunction := start >= 3 && strings.EqualFold(style[start-3:start], "url")
+
 					// Don't extract CSS elements that aren't URLs
-					if strings.Contains(matchFound, "%") ||
+					if (strings.Contains(matchFound, "%") && !isURLFunction) ||
 						strings.HasPrefix(matchFound, "0.") ||
 						strings.HasPrefix(matchFound, "--font") ||
 						strings.HasPrefix(matchFound, "--size") ||
